@@ -44,6 +44,10 @@ pub fn run(a: &Args) {
     }
     let threads = n_writers + n_waiters;
     vh::install_labelled_schedule(schedule, threads);
+    {
+        let c = actor.cell.clone();
+        vh::set_observer(Box::new(move || lc::verif_raw_status(&c) as u64));
+    }
     let (tx, rx) = mpsc::channel::<(usize, String)>();
     let mut joins = Vec::new();
     for w in 0..n_waiters {
@@ -108,6 +112,7 @@ pub fn run(a: &Args) {
     }
     let log = vh::take_log();
     println!("final_status={}", actor.cell.get_status() as u8);
+    println!("status_samples={}", vh::take_samples().iter().map(|x| x.to_string()).collect::<Vec<_>>().join(","));
     println!("sup_events={}", sup_ports.supervision_len());
     println!("child_signalled={}", child_ports.signalled() as u8);
     println!("log={}", log.iter().map(|(t, l)| format!("{}:{}", if *t == usize::MAX { 99 } else { *t }, l)).collect::<Vec<_>>().join(","));
